@@ -648,16 +648,20 @@ theorem temp_of_added {ad : List (Str × List α)} (h : ∀ p ∈ ad, ∃ j, p.1
   rw [hj]
   exact isTemp_tmpName j
 
+theorem not_xyz_of_not_reserved {out : Str} (hr : isReserved out = false) : out ≠ ['x'] ∧ out ≠ ['y'] ∧ out ≠ ['z'] := by
+  refine ⟨?_, ?_, ?_⟩ <;> (intro h; subst h; revert hr; decide)
+
 /-- assignment to a name that is not in the table: the column is created -/
 theorem assign_new (tr : Tr α) (lhs : Str) (it : Item α) (v : Val α) (hn : tr.n ≠ 0) (hl : NoLitNames tr)
     (hr : isReserved lhs = false) (hlk : lookup lhs tr.feats = none) (hv : itemVal tr it = some v) :
     assign tr (.tok lhs) it = (.ok (), ext tr [(lhs, v.toVec tr.n)]) := by
   have hh : hasAF tr lhs = false := by simp [hasAF, hlk, hr]
+  obtain ⟨hx, hy, hz⟩ := not_xyz_of_not_reserved hr
   cases v with
   | lit x =>
     obtain ⟨_, tf, _⟩ := itemVal_lit hv
     have hA := itemHasAF_lit hl hv
-    simp [assign, hA, tf, hh, createAF, hr, hn, hlk, konst, ext, Val.toVec]
+    simp [assign, hA, tf, hh, createAF, hr, hn, hlk, konst, ext, Val.toVec, hx, hy, hz]
   | vec c =>
     obtain ⟨s, rfl, _, g⟩ := itemVal_vec hv
     simp [assign, itemHasAF, hasAF_of_getAF g, hh, g, createAF, hr, hn, hlk, ext, Val.toVec]
@@ -801,7 +805,7 @@ theorem operateTokens_assign_existing_vec (tr : Tr α) (lhs : Str) (e : Ex) (c :
 /-- **`lhs = e` with an existing feature name and a number** (`a=3`, fix 79feaf2): the column is
     overwritten in place. -/
 theorem operateTokens_assign_existing_lit (tr : Tr α) (lhs : Str) (e : Ex) (x : α)
-    (hop : isOperatorTok lhs = none) (hlk : (lookup lhs tr.feats).isSome)
+    (hop : isOperatorTok lhs = none) (hr : isReserved lhs = false) (hlk : (lookup lhs tr.feats).isSome)
     (hw : WFx e) (hn : tr.n ≠ 0) (hnt : NoTemps tr) (hl : NoLitNames tr) (hd : denoteM tr e = .ok (.lit x)) :
     operateTokens tr (lhs :: (post e ++ [['=']])) true =
       (.ok none, { tr with feats := setKey lhs (List.replicate tr.n x) tr.feats }) := by
@@ -812,9 +816,10 @@ theorem operateTokens_assign_existing_lit (tr : Tr α) (lhs : Str) (e : Ex) (x :
     rw [lookup_append]; cases h : lookup lhs tr.feats with
     | none => simp [h] at hlk
     | some x => simp
+  obtain ⟨hx, hy, hz⟩ := not_xyz_of_not_reserved hr
   have ha : assign (ext tr ad) (.tok lhs) it =
       (.ok (), ext ({ tr with feats := setKey lhs (List.replicate tr.n x) tr.feats }) ad) := by
-    simp only [assign, hA, Bool.false_eq_true, if_false, tf]
+    simp only [assign, hA, Bool.false_eq_true, if_false, tf, hx, hy, hz, decide_false, Bool.or_self]
     simp only [hasAF, ext_feats, hlk', Bool.true_or, if_true, updateAF, Bool.not_true, Bool.false_eq_true, if_false,
       ext_n, hn, konst, setKey_append_some _ _ _ _ hlk]
     simp [ext]
@@ -843,56 +848,66 @@ theorem lookup_of_getAF_temp {T : Tr α} {s : Str} {c : List α} (ht : isTemp s 
     | none => simp [h] at g
     | some c' => simp only [h, Except.ok.injEq] at g; rw [g]
 
-/-- **`x = e`, `y = e`, `z = e` with a vector value**: the coordinate is overwritten with the value
-    of `e`; the table of features is unchanged (fix 3613032) and no temporary survives. -/
-theorem operateTokens_assign_coord (tr : Tr α) (lhs : Str) (e : Ex) (c : List α)
+/-- **`x = e`, `y = e`, `z = e`**: the coordinate is overwritten with the value of `e` — a vector, or
+    a number written at every observation (fix 144a468) —; the table of features is unchanged
+    (fix 3613032) and no temporary survives. -/
+theorem operateTokens_assign_coord (tr : Tr α) (lhs : Str) (e : Ex) (v : Val α)
     (hc : lhs = ['x'] ∨ lhs = ['y'] ∨ lhs = ['z'])
-    (hw : WFx e) (hn : tr.n ≠ 0) (hnt : NoTemps tr) (hl : NoLitNames tr) (hd : denoteM tr e = .ok (.vec c)) :
-    operateTokens tr (lhs :: (post e ++ [['=']])) true = (.ok none, setCoord tr lhs c) := by
+    (hw : WFx e) (hn : tr.n ≠ 0) (hnt : NoTemps tr) (hl : NoLitNames tr) (hd : denoteM tr e = .ok v) :
+    operateTokens tr (lhs :: (post e ++ [['=']])) true = (.ok none, setCoord tr lhs (v.toVec tr.n)) := by
   have hop : isOperatorTok lhs = none := by rcases hc with rfl | rfl | rfl <;> rfl
-  obtain ⟨ad, it, had, hv, he⟩ := evalRPN_before_assign tr lhs e (.vec c) hop hw hn hnt hl hd
-  obtain ⟨s, rfl, _, g⟩ := itemVal_vec hv
+  obtain ⟨ad, it, had, hv, he⟩ := evalRPN_before_assign tr lhs e v hop hw hn hnt hl hd
   have hres : isReserved lhs = true := by rcases hc with rfl | rfl | rfl <;> rfl
   have hcb : (decide (lhs = ['x']) || decide (lhs = ['y']) || decide (lhs = ['z'])) = true := by
     rcases hc with rfl | rfl | rfl <;> rfl
-  have hfe : (setCoord (ext tr ad) lhs c).feats = tr.feats ++ ad := by
-    unfold setCoord; split <;> (try split) <;> rfl
-  have hpu : ∀ l', (∀ p ∈ l', isTemp p.1 = true) →
+  have hfe : ∀ c, (setCoord (ext tr ad) lhs c).feats = tr.feats ++ ad := by
+    intro c; unfold setCoord; split <;> (try split) <;> rfl
+  have hpu : ∀ c l', (∀ p ∈ l', isTemp p.1 = true) →
       purge { setCoord (ext tr ad) lhs c with feats := tr.feats ++ l' } = setCoord tr lhs c := by
-    intro l' hl'
+    intro c l' hl'
     unfold setCoord
     split <;> (try split) <;>
       simp [purge, ext, List.filter_append, filter_nontemp_self hnt, filter_temp_nil hl']
+  have hself : ∀ c, ({ setCoord (ext tr ad) lhs c with feats := tr.feats ++ ad } : Tr α) = setCoord (ext tr ad) lhs c := by
+    intro c; unfold setCoord; split <;> (try split) <;> rfl
   have hhl : hasAF (ext tr ad) lhs = true := by simp [hasAF, hres]
-  by_cases hts : isTemp s = true
-  · have hlks := lookup_of_getAF_temp hts g
-    have hnone : lookup s tr.feats = none := lookup_temp_none hnt hts
-    have hrm : removeAF (setCoord (ext tr ad) lhs c) s =
-        .ok { setCoord (ext tr ad) lhs c with feats := tr.feats ++ eraseKey s ad } := by
-      simp only [removeAF, hasAF, hfe]
-      simp only [ext_feats] at hlks
-      simp [hlks, eraseKey_append_none _ _ _ hnone]
-    have ha : assign (ext tr ad) (.tok lhs) (.tok s) =
-        (.ok (), { setCoord (ext tr ad) lhs c with feats := tr.feats ++ eraseKey s ad }) := by
-      simp only [assign, itemHasAF, hasAF_of_getAF g, hhl, if_true, g, hcb, hts, hrm]
-    simp only [operateTokens, evalTokens, he, ha, Except.map, if_true]
-    exact congrArg _ (hpu _ (fun p hp => temp_of_added had p (mem_eraseKey hp)))
-  · have ha : assign (ext tr ad) (.tok lhs) (.tok s) = (.ok (), setCoord (ext tr ad) lhs c) := by
-      simp only [assign, itemHasAF, hasAF_of_getAF g, hhl, if_true, g, hcb, hts, if_false, Bool.false_eq_true]
-    simp only [operateTokens, evalTokens, he, ha, Except.map, if_true]
-    have := hpu ad (temp_of_added had)
-    have h2 : ({ setCoord (ext tr ad) lhs c with feats := tr.feats ++ ad } : Tr α) = setCoord (ext tr ad) lhs c := by
-      unfold setCoord; split <;> (try split) <;> rfl
-    rw [h2] at this
+  cases v with
+  | lit x =>
+    obtain ⟨_, tf, _⟩ := itemVal_lit hv
+    have hA := itemHasAF_lit (hl.ext had) hv
+    have ha : assign (ext tr ad) (.tok lhs) it = (.ok (), setCoord (ext tr ad) lhs (List.replicate tr.n x)) := by
+      simp only [assign, hA, Bool.false_eq_true, if_false, hcb, if_true, ext_n, hn, tf, konst]
+    simp only [operateTokens, evalTokens, he, ha, Except.map, if_true, Val.toVec]
+    have := hpu (List.replicate tr.n x) ad (temp_of_added had)
+    rw [hself] at this
     exact congrArg _ this
+  | vec c =>
+    obtain ⟨s, rfl, _, g⟩ := itemVal_vec hv
+    simp only [Val.toVec]
+    by_cases hts : isTemp s = true
+    · have hlks := lookup_of_getAF_temp hts g
+      have hnone : lookup s tr.feats = none := lookup_temp_none hnt hts
+      have hrm : removeAF (setCoord (ext tr ad) lhs c) s =
+          .ok { setCoord (ext tr ad) lhs c with feats := tr.feats ++ eraseKey s ad } := by
+        simp only [removeAF, hasAF, hfe]
+        simp only [ext_feats] at hlks
+        simp [hlks, eraseKey_append_none _ _ _ hnone]
+      have ha : assign (ext tr ad) (.tok lhs) (.tok s) =
+          (.ok (), { setCoord (ext tr ad) lhs c with feats := tr.feats ++ eraseKey s ad }) := by
+        simp only [assign, itemHasAF, hasAF_of_getAF g, hhl, if_true, g, hcb, hts, hrm]
+      simp only [operateTokens, evalTokens, he, ha, Except.map, if_true]
+      exact congrArg _ (hpu c _ (fun p hp => temp_of_added had p (mem_eraseKey hp)))
+    · have ha : assign (ext tr ad) (.tok lhs) (.tok s) = (.ok (), setCoord (ext tr ad) lhs c) := by
+        simp only [assign, itemHasAF, hasAF_of_getAF g, hhl, if_true, g, hcb, hts, if_false, Bool.false_eq_true]
+      simp only [operateTokens, evalTokens, he, ha, Except.map, if_true]
+      have := hpu c ad (temp_of_added had)
+      rw [hself] at this
+      exact congrArg _ this
 
 
 /-! ### operator objects applied directly (`Track.operate(Operator.X, …)`) -/
 
 theorem ok_bind {β γ : Type} (a : β) (f : β → Except Err γ) : ((Except.ok a : Except Err β) >>= f) = f a := rfl
-
-theorem not_xyz_of_not_reserved {out : Str} (hr : isReserved out = false) : out ≠ ['x'] ∧ out ≠ ['y'] ∧ out ≠ ['z'] := by
-  refine ⟨?_, ?_, ?_⟩ <;> (intro h; subst h; revert hr; decide)
 
 /-- a void operator writing to a new feature name returns what it computes -/
 theorem runVoid_new_fst (tr : Tr α) (out : Str) (compute : Tr α → Except Err (List α))
